@@ -1168,6 +1168,42 @@ pub fn evaluate(node: &mut Node, step: &Step, ctx: &mut Ctx) -> Result<Option<Mi
     Ok(None)
 }
 
+/// C07 taken literally, against the node's OWN state (used when the state already differs from the model because of
+/// a misbehaviour another property owns): every probed proof recomputes the node's current root from the node's
+/// stored leaf and is accepted by the node's own check.
+fn proofs_self_consistent(node: &Node, probes: &[usize]) -> Result<Option<Mismatch>, String> {
+    fn chk<T>(t: &T, probes: &[usize]) -> Option<Mismatch>
+    where
+        T: ZerokitMerkleTree<Hasher = PoseidonHash>,
+        T::Proof: ZerokitMerkleProof<Hasher = PoseidonHash, Index = u8>,
+    {
+        let root = t.root();
+        for &i in probes {
+            if i >= t.capacity() {
+                continue;
+            }
+            let (leaf, p) = match (t.get(i), t.proof(i)) {
+                (Ok(l), Ok(p)) => (l, p),
+                _ => return Some(Mismatch { clause: "proof_exists", detail: format!("get({i}) or proof({i}) failed") }),
+            };
+            if p.compute_root_from(&leaf) != root {
+                return Some(Mismatch { clause: "proof_root", detail: format!("proof({i}) does not recompute the tree's current root from the stored leaf (the tree state itself already deviates from the ideal tree)") });
+            }
+            if !matches!(t.verify(&leaf, &p), Ok(true)) {
+                return Some(Mismatch { clause: "proof_verify", detail: format!("verify(get({i}), proof({i})) is not accepted") });
+            }
+        }
+        None
+    }
+    guarded(|| match &node.sut {
+        Sut::Full(t) => chk(t, probes),
+        Sut::Opt(t) => chk(t, probes),
+        #[cfg(feature = "pm")]
+        Sut::Pm(t) => chk(t, probes),
+        _ => None,
+    })
+}
+
 /// Owner of a misbehaving operation on a given node kind: the byte-level API expresses a plain
 /// range write through a batch entry point (set_leaves_from), which C08 owns.
 pub fn owner_for(kind: &str, op: &Op) -> &'static str {
@@ -1562,6 +1598,14 @@ fn run_trace_inner(trace: &Trace, ctx: &mut Ctx, run_dir: &std::path::Path) -> R
                         return viol(&prop, &kind, si, &step.op, &clause, m.detail);
                     }
                     ctx.counters.inc("foreign_mismatch");
+                    if prop == "C07" && !m.clause.starts_with("proof") {
+                        let probes = probe_positions(&node.model, &ctx.probes);
+                        match proofs_self_consistent(node, &probes) {
+                            Ok(Some(pm)) => return viol(&prop, &kind, si, &step.op, pm.clause, pm.detail),
+                            Err(p) => return viol(&prop, &kind, si, &step.op, "getter_panic", p),
+                            Ok(None) => {}
+                        }
+                    }
                     if let Err(e) = node.rebuild_from_model(&trace.store, run_dir) {
                         return herr(format!("rebuild after foreign mismatch failed: {e}"));
                     }
